@@ -30,7 +30,7 @@ META = {
     "note": "Trusted: strace, cargo's dep-info handling, the classification of created files into roles. Only files created by the "
             "layout generator are considered (the crate's own sources and registry files are not WIT inputs).",
 }
-FLOORS = {"quick": (8, 5), "thorough": (80, 20)}
+FLOORS = {"quick": (9, 6), "thorough": (80, 20)}
 
 WRAPPER = r"""#!/bin/sh
 # RUSTC_WRAPPER for C32: $1 = rustc, rest = its arguments.  Only the case crates are traced.
@@ -168,8 +168,8 @@ def _role_of(case_files, real):
     return case_files.get(real, "unknown")
 
 
-def _sig_form_role(form, role):
-    if role == "wasm-dep":
+def _sig_form_role(form, role, path=""):
+    if role == "wasm-dep" and path.endswith((".wasm", ".wat")):
         # the cause is independent of the invocation form (any directory source with deps/*.wasm)
         return "generate-macro:untracked-wit:deps-dir:wasm-dep"
     return "generate-macro:untracked-wit:%s:%s" % (form, role)
@@ -188,7 +188,7 @@ def run(tier, seed, replay):
     if not os.path.exists(wasm):
         wasm = None
         rep.inconc("wasm-encoded dependency layouts skipped: crates/guest-rust/wasi-cli@0.2.0.wasm not found")
-    n = 8 if tier == "quick" else 80
+    n = 9 if tier == "quick" else 81
     rounds = 1 if tier == "quick" else 2
     prefix = "c32v%dx%d" % (os.getpid(), seed % 100000)
     ws = vcommon.scratch_dir("c32")
@@ -292,7 +292,7 @@ def run(tier, seed, replay):
             seen_sig = set()
             for p in missing:
                 role = _role_of(known, p)
-                sig = _sig_form_role(c["form"], role)
+                sig = _sig_form_role(c["form"], role, p)
                 if sig in seen_sig:
                     continue
                 seen_sig.add(sig)
